@@ -42,6 +42,8 @@ def run(ctx):
     ctx.do(C16.rule_key_order, rule_id="C06.canonical-form")
     ctx.do(C16.rule_escapes, rule_id="C06.canonical-form")
     ctx.do(C16.rule_number_constants, rule_id="C06.canonical-form")
+    from .hidden_state import rule_no_hidden_state
+    ctx.do(rule_no_hidden_state, "C06.history-independence")
 
 
 def rule_table(ctx):
